@@ -284,10 +284,12 @@ def _check_grid(case, acc):
 
 
 # ---------------------------------------------------------------- Mode II
-def w_ops(keys, d):
+def w_ops(keys, d, vf="ints"):
     """state-changing operations enabled for a table over `keys`"""
     absent = next(k for k in U if k not in keys and k >= 0 and k < 100)
     ops = []
+    if vf in ("floats", "scalar_half"):
+        ops.append(["set1", keys[-1], 2.5])        # a float-valued table keeps fractions, also after fill / zeros_like / ones_like / +
     for i, k in enumerate(keys):
         ops.append(["set1", k, 50 + i])
     ops.append(["set1", absent, 99])
@@ -389,7 +391,7 @@ def run_shard(shard, tier, acc):
         nxt = []
         for hist in frontier:
             _, d = replay(cfg, hist)
-            for op in w_ops(keys, d):
+            for op in w_ops(keys, d, vf):
                 h2 = hist + [op]
                 acc.begin(["hist", cfg, h2])
                 st = _step(acc, cfg, hist, op, seen)
